@@ -391,11 +391,17 @@ def run(ctx):
               "decorations: header, comment, one C line per ordered segment "
               "pair, one P line per link",
       "gfa2_twins": "the same graphs written as S/E lines",
-      "gfa2_mixed": "segments a,b,c of length 4; E lines over every ordered "
-                    "segment pair (incl. self), 4 orientation pairs, interval "
-                    "kinds {pfx,sfx,whole,internal} (+ empty pfx, empty sfx, "
-                    "point) on both sides; every set of <=2 E lines (n<=2 "
-                    "quick, n<=3 thorough), <=3 on one segment (thorough)",
+      "gfa2_mixed": "segments a,b,c of length 4 with `*` sequence; unnamed E "
+                    "lines over ordered segment pairs (incl. a segment with "
+                    "itself), the 4 orientation pairs and interval kinds "
+                    "{pfx 0..2, sfx 2..4$, whole 0..4$, internal 1..3} on both "
+                    "sides (+ empty pfx 0..0, empty sfx 4$..4$, point 2..2 = "
+                    "'all kinds'); quick: every set of <=2 E lines on one "
+                    "segment, every single E line on 2 segments with all "
+                    "kinds, every pair of E lines over the segment pairs "
+                    "aa/ab/ba; thorough: <=3 on one segment, pairs with all "
+                    "kinds over aa/ab/ba, every set of <=2 E lines on 3 "
+                    "segments",
       "histories": {"G1": universe.G1, "G2": universe.G2, "H1": H1, "H2": H2,
                     "ops": ["add(any universe line)", "rm(id)",
                             "disconnect(unnamed line)", "rename(id -> fresh)",
